@@ -265,11 +265,21 @@ def families(env):
             return str.__hash__(self)
 
     def many_symbols(n, pattern):
-        t = bl[0]
-        for i in range(n):
-            p_i = mgr.Symbol(CountedName("ms%d" % i), B)
-            t = mgr.And(mgr.Or(t, p_i), mgr.Not(mgr.And(t, p_i))) if pattern != "chain" else mgr.Or(mgr.Not(t), p_i)
-        return t
+        # a balanced tree over 8n (chain: n) symbols: the per-node free-symbol sets that the printer and the oracles
+        # keep add up to V log V only, so a cost of V per NODE stands out
+        k = n if pattern == "chain" else 8 * n
+        level = [mgr.Symbol(CountedName("ms%d" % i), B) for i in range(k)]
+        d = 0
+        while len(level) > 1:
+            nxt = []
+            for i in range(0, len(level) - 1, 2):
+                x, y = level[i], level[i + 1]
+                nxt.append(mgr.And(x, mgr.Not(y)) if d % 2 == 0 else mgr.Or(mgr.Not(x), y))
+            if len(level) % 2:
+                nxt.append(level[-1])
+            level = nxt
+            d += 1
+        return level[0]
     F["many-symbols"] = many_symbols
     # mixed Int/Real with casts and constants on the way (x + 0, x * 1 are folded by the simplifier)
     #  - an ITE between two levels, so that the folded result never nests Plus directly in Plus)
@@ -357,9 +367,7 @@ FAMILY_SKIP = {"and-direct": {"simplify", "propagate-toplevel"}, "or-direct": {"
                # one flat conjunction of n observations: simplify / nnf / ... rebuild an n-ary And per call (linear),
                # the interesting operation is the construction
                "bv-ite-observed": set(),
-               # free symbols / atoms are memoised per node as sets: with as many symbols as nodes the *results* add up
-               # to a quadratic size (one visit per node all the same); not measured on this family
-               "many-symbols": {"free_vars", "atoms", "prenex"}}     # (prenex asks for the free symbols of every And / Or)
+               "many-symbols": set()}
 
 
 NON_REWRITING = {"substitute", "free_vars", "atoms", "is_qf", "get_types", "get_logic", "size-depth", "dag-print",
